@@ -59,73 +59,32 @@ theorem instSecs_ext_bounds (dt : NaiveDT) (h : ExtNDTInv dt) :
 on `(timestamp, subsec)`, Model/Round.lean) agree, and the former never panics -/
 theorem nanos_opt_bridge (dt : NaiveDT) (h : ExtNDTInv dt) :
     NaiveDT.timestamp_nanos_opt dt = .ok (Round.timestamp_nanos_opt (instSecs dt) dt.time.frac) := by
-  have hb := instSecs_ext_bounds dt h
   have hts := timestamp_ext dt h
-  obtain ⟨_, _, _, t3, t4⟩ := h
   unfold NaiveDT.timestamp_nanos_opt NaiveDT.timestamp_subsec_nanos Time.nanosecond
     Round.timestamp_nanos_opt
   rw [hts]
   simp only [Res.bind, STAMP_SCALE]
-  generalize instSecs dt = s at *
-  generalize dt.time.frac = f at *
-  by_cases hneg : s < 0
-  · rw [if_pos hneg, if_pos hneg, if_pos hneg, ckI64_ok (by omega) (by omega)]
-    simp only []
-    rw [ckI64_ok (by omega) (by omega)]
-    simp only []
-    cases optI64 ((s + 1) * 1000000000) <;> rfl
-  · rw [if_neg hneg, if_neg hneg, if_neg hneg]
-    cases optI64 (s * 1000000000) <;> rfl
 
-/-- the stamp for every nanosecond field, leap-second fields included: absent exactly when the
-wall-clock line position is outside `i64`, or — an artefact of the negative-timestamp workaround,
-reachable only with a leap-second field — when `(ts + 1)·10⁹` is -/
-theorem timestamp_nanos_opt_eq2 (ts sub : Int) (h0 : 0 ≤ sub) (h1 : sub < 2000000000) :
+/-- the stamp for every nanosecond field, leap-second fields included (after fix 32de816 of
+`timestamp_nanos_opt`): present exactly when the wall-clock line position is an `i64` -/
+theorem timestamp_nanos_opt_eq2 (ts sub : Int) :
     Round.timestamp_nanos_opt ts sub =
-      if stampOk ts sub then some (ts * 1000000000 + sub) else none := by
-  have hiff : stampOk ts sub ↔
-      ((-9223372036854775808 ≤ ts * 1000000000 + sub ∧ ts * 1000000000 + sub ≤ 9223372036854775807) ∧
-        (ts < 0 → -9223372036854775808 ≤ (ts + 1) * 1000000000)) := Iff.rfl
+      if InI64 (ts * 1000000000 + sub) then some (ts * 1000000000 + sub) else none := by
   unfold Round.timestamp_nanos_opt
   simp only [STAMP_SCALE]
-  by_cases hneg : ts < 0
-  · simp only [if_pos hneg]
-    by_cases hin : -9223372036854775808 ≤ (ts + 1) * 1000000000
-    · rw [optI64_some hin (by omega)]
-      simp only
-      by_cases h2 : -9223372036854775808 ≤ ts * 1000000000 + sub
-      · rw [optI64_some (by omega) (by omega), ite_pos' _ _ (hiff.mpr ⟨⟨h2, by omega⟩, fun _ => hin⟩)]
-        congr 1; omega
-      · rw [optI64_none (by omega), ite_neg' _ _ (fun h => h2 (hiff.mp h).1.1)]
-    · rw [optI64_none (by omega)]
-      simp only
-      rw [ite_neg' _ _ (fun h => hin ((hiff.mp h).2 hneg))]
-  · simp only [if_neg hneg]
-    by_cases hin : ts * 1000000000 ≤ 9223372036854775807
-    · rw [optI64_some (by omega) hin]
-      simp only
-      by_cases h2 : ts * 1000000000 + sub ≤ 9223372036854775807
-      · rw [optI64_some (by omega) h2,
-          ite_pos' _ _ (hiff.mpr ⟨⟨by omega, h2⟩, fun h => absurd h hneg⟩)]
-      · rw [optI64_none (by omega), ite_neg' _ _ (fun h => h2 (hiff.mp h).1.2)]
-    · rw [optI64_none (by omega)]
-      simp only
-      rw [ite_neg' _ _ (fun h => hin (by have := (hiff.mp h).1.2; omega))]
+  by_cases h : InI64 (ts * 1000000000 + sub)
+  · rw [if_pos h, optI64_some h.1 h.2]
+  · rw [if_neg h, optI64_none (by unfold InI64 at h; omega)]
 
-theorem stampOk_nonleap (ts sub : Int) (h0 : 0 ≤ sub) (h1 : sub < 1000000000) :
-    stampOk ts sub ↔ InI64 (ts * 1000000000 + sub) := by
-  unfold stampOk InI64; omega
-
-/-- the integer path for every field `0 ≤ sub < 2·10⁹` -/
-theorem on_datetime_eq2 (op : Op) (utc sub off : Int) (dur : Delta) (hd : DInv dur)
-    (h0 : 0 ≤ sub) (h1 : sub < 2000000000) :
+/-- the integer path for every field -/
+theorem on_datetime_eq2 (op : Op) (utc sub off : Int) (dur : Delta) (hd : DInv dur) :
     on_datetime op utc sub off dur =
       if ns dur ≤ 0 ∨ 9223372036854775807 < ns dur then .ok (.err .DurationExceedsLimit)
-      else if ¬ stampOk (utc + off) sub then .ok (.err .TimestampExceedsLimit)
+      else if ¬ InI64 ((utc + off) * 1000000000 + sub) then .ok (.err .TimestampExceedsLimit)
       else .ok (.ok (specOf (kindOf op) ((utc + off) * 1000000000 + sub) (ns dur)
                       - ((utc + off) * 1000000000 + sub))) := by
   unfold on_datetime wall_stamp
-  rw [num_nanoseconds_eq dur hd, timestamp_nanos_opt_eq2 _ _ h0 h1]
+  rw [num_nanoseconds_eq dur hd, timestamp_nanos_opt_eq2]
   generalize (utc + off) * 1000000000 + sub = w
   generalize ns dur = p
   by_cases hp : p ≤ 0
@@ -140,7 +99,7 @@ theorem on_datetime_eq2 (op : Op) (utc sub off : Int) (dur : Delta) (hd : DInv d
       rw [if_pos (Or.inr hbig), e]; exact run_span_none op _
     · have e : optI64 p = some p := optI64_some (by omega) (by omega)
       rw [if_neg (show ¬ (p ≤ 0 ∨ 9223372036854775807 < p) by omega), e]
-      by_cases hw : stampOk (utc + off) sub
+      by_cases hw : InI64 w
       · rw [if_pos hw, if_neg (not_not.mpr hw)]
         exact run_eval' op w p (by omega) (by omega)
       · rw [if_neg hw, if_pos hw]
@@ -323,16 +282,6 @@ theorem generic_eq {α : Type} (op : Op) (naive : NaiveDT) (hn : ExtNDTInv naive
     · rw [if_pos hs, run_span_nonpos op _ span hs]; rfl
     · rw [if_neg hs]
 
-/-- for a value as the constructors build it (leap field only on a second 59) the stamp exists
-exactly when the line position is an `i64` -/
-theorem stampOk_strict (dt : NaiveDT) (hs : TStrict dt.time) :
-    stampOk (instSecs dt) dt.time.frac ↔ InI64 (instNs dt) := by
-  obtain ⟨⟨_, _, t3, t4⟩, hl⟩ := hs
-  have h60 : instSecs dt % 60 = dt.time.secs % 60 := by unfold instSecs; omega
-  unfold stampOk InI64 instNs
-  generalize instSecs dt = s at *
-  omega
-
 theorem spec_move_bounds (k : Kind) (w p : Int) (hp : 0 < p ∧ p ≤ 9223372036854775807) :
     -9223372036854775807 ≤ specOf k w p - w ∧ specOf k w p - w ≤ 9223372036854775807 := by
   have := spec_bounds k w p hp.1
@@ -343,16 +292,16 @@ every valid `TimeDelta` -/
 theorem naive_eval (op : Op) (dt : NaiveDT) (dur : Delta) (hdt : NDTInv dt) (hd : DInv dur) :
     (ns dur ≤ 0 ∨ 9223372036854775807 < ns dur →
       naive_duration op dt dur = .ok (.err .DurationExceedsLimit)) ∧
-    (0 < ns dur ∧ ns dur ≤ 9223372036854775807 → ¬ stampOk (instSecs dt) dt.time.frac →
+    (0 < ns dur ∧ ns dur ≤ 9223372036854775807 → ¬ InI64 (instNs dt) →
       naive_duration op dt dur = .ok (.err .TimestampExceedsLimit)) ∧
-    (0 < ns dur ∧ ns dur ≤ 9223372036854775807 → stampOk (instSecs dt) dt.time.frac →
+    (0 < ns dur ∧ ns dur ≤ 9223372036854775807 → InI64 (instNs dt) →
       ∃ x, naive_duration op dt dur = .ok (.ok x) ∧
         Moved dt (specOf (kindOf op) (instNs dt) (ns dur) - instNs dt) x ∧
         (specOf (kindOf op) (instNs dt) (ns dur) = instNs dt → x = dt)) := by
   have hext : ExtNDTInv dt := ⟨((dateInv_iff dt.date).mp hdt.1).1, hdt.2⟩
   have hf := hdt.2.2.2
   have hgen := generic_eq op dt hext dt NaiveDT.add NaiveDT.sub dur
-  have hint := on_datetime_eq2 op (instSecs dt) dt.time.frac 0 dur hd hf.1 hf.2
+  have hint := on_datetime_eq2 op (instSecs dt) dt.time.frac 0 dur hd
   have e : instSecs dt * 1000000000 + dt.time.frac = instNs dt := rfl
   rw [Int.add_zero, e] at hint
   unfold naive_duration
@@ -365,7 +314,7 @@ theorem naive_eval (op : Op) (dt : NaiveDT) (dur : Delta) (hdt : NDTInv dt) (hd 
     rw [hgen, hint, if_neg (by omega), if_neg (not_not.mpr hok)]
     have hmv := spec_move_bounds (kindOf op) (instNs dt) (ns dur) hgood
     have hnw : NearWindow (instNs dt) := by
-      have := hok.1; unfold InI64 at this; unfold NearWindow instNs; omega
+      unfold InI64 at hok; unfold NearWindow; omega
     obtain ⟨x, hx, hm, hz⟩ := naive_move dt _ hdt hmv hnw
     refine ⟨x, ?_, hm, fun h => hz (by omega)⟩
     unfold finish
@@ -378,17 +327,16 @@ reading is moved, the offset is kept -/
 theorem zoned_eval (op : Op) (z : Zoned) (dur : Delta) (hz : ZInv z) (hd : DInv dur) :
     (ns dur ≤ 0 ∨ 9223372036854775807 < ns dur →
       zoned_duration op z dur = .ok (.err .DurationExceedsLimit)) ∧
-    (0 < ns dur ∧ ns dur ≤ 9223372036854775807 → ¬ stampOk (wallSecs z) z.utc.time.frac →
+    (0 < ns dur ∧ ns dur ≤ 9223372036854775807 → ¬ InI64 (wallNs z) →
       zoned_duration op z dur = .ok (.err .TimestampExceedsLimit)) ∧
-    (0 < ns dur ∧ ns dur ≤ 9223372036854775807 → stampOk (wallSecs z) z.utc.time.frac →
+    (0 < ns dur ∧ ns dur ≤ 9223372036854775807 → InI64 (wallNs z) →
       ∃ x, zoned_duration op z dur = .ok (.ok ⟨x, z.off⟩) ∧
         Moved z.utc (specOf (kindOf op) (wallNs z) (ns dur) - wallNs z) x ∧
         (specOf (kindOf op) (wallNs z) (ns dur) = wallNs z → x = z.utc)) := by
   obtain ⟨l, hl, hext, hsecs, hfrac, _, _⟩ := naive_local_spec z hz
   have hf := hz.1.2.2.2
   have hgen := generic_eq op l hext z Zoned.add Zoned.sub dur
-  have hint := on_datetime_eq2 op (instSecs l) l.time.frac 0 dur hd (by rw [hfrac]; exact hf.1)
-    (by rw [hfrac]; exact hf.2)
+  have hint := on_datetime_eq2 op (instSecs l) l.time.frac 0 dur hd
   rw [Int.add_zero, hsecs, hfrac] at hint
   have hwall : wallSecs z * 1000000000 + z.utc.time.frac = wallNs z := by
     unfold wallSecs wallNs instNs; omega
@@ -406,20 +354,13 @@ theorem zoned_eval (op : Op) (z : Zoned) (dur : Delta) (hz : ZInv z) (hd : DInv 
     rw [hgen, hint, if_neg (by omega), if_neg (not_not.mpr hok)]
     have hmv := spec_move_bounds (kindOf op) (wallNs z) (ns dur) hgood
     have hnw : NearWindow (instNs z.utc) := by
-      have := hok.1; have ho := hz.2
-      unfold InI64 at this; unfold OffValid at ho; rw [hwall] at this
-      unfold wallNs at this; unfold NearWindow; omega
+      have ho := hz.2
+      unfold InI64 wallNs at hok; unfold OffValid at ho; unfold NearWindow; omega
     obtain ⟨x, hx, hm, hzero⟩ := zoned_move z _ hz.1 hmv hnw
     refine ⟨x, ?_, hm, fun h => hzero (by omega)⟩
     unfold finish
     simp only []
     rw [hx]
-
-/-- the stamp exists exactly when the line position is an `i64`, except on the one wall-clock second
-`−9223372038` (reachable only with a leap-second field) -/
-theorem stampOk_iff (ts sub : Int) (h0 : 0 ≤ sub) (h1 : sub < 2000000000) :
-    stampOk ts sub ↔ (InI64 (ts * 1000000000 + sub) ∧ ts ≠ -9223372038) := by
-  unfold stampOk InI64; omega
 
 /-- a non-leap result read back by the crate's own `timestamp_nanos_opt` -/
 theorem stamp_of_result (v : NaiveDT) (hv : NDTInv v) (hs : TStrict v.time) :
@@ -439,12 +380,12 @@ theorem moved_nonleap (dt x : NaiveDT) (d : Int) (hn : NonLeap dt) (h : Moved dt
 /-- an `Ok` result can only come from the third case of `naive_eval` -/
 theorem naive_ok_inv (op : Op) (dt v : NaiveDT) (dur : Delta) (hdt : NDTInv dt) (hd : DInv dur)
     (h : naive_duration op dt dur = .ok (.ok v)) :
-    (0 < ns dur ∧ ns dur ≤ 9223372036854775807) ∧ stampOk (instSecs dt) dt.time.frac ∧
+    (0 < ns dur ∧ ns dur ≤ 9223372036854775807) ∧ InI64 (instNs dt) ∧
     Moved dt (specOf (kindOf op) (instNs dt) (ns dur) - instNs dt) v ∧
     (specOf (kindOf op) (instNs dt) (ns dur) = instNs dt → v = dt) := by
   obtain ⟨e1, e2, e3⟩ := naive_eval op dt dur hdt hd
   by_cases hg : 0 < ns dur ∧ ns dur ≤ 9223372036854775807
-  · by_cases hs : stampOk (instSecs dt) dt.time.frac
+  · by_cases hs : InI64 (instNs dt)
     · obtain ⟨x, hx, hm, hz⟩ := e3 hg hs
       rw [hx] at h
       have : x = v := RRes.ok.inj (Res.ok.inj h)
@@ -455,12 +396,12 @@ theorem naive_ok_inv (op : Op) (dt v : NaiveDT) (dur : Delta) (hdt : NDTInv dt) 
 
 theorem zoned_ok_inv (op : Op) (z v : Zoned) (dur : Delta) (hz : ZInv z) (hd : DInv dur)
     (h : zoned_duration op z dur = .ok (.ok v)) :
-    (0 < ns dur ∧ ns dur ≤ 9223372036854775807) ∧ stampOk (wallSecs z) z.utc.time.frac ∧
+    (0 < ns dur ∧ ns dur ≤ 9223372036854775807) ∧ InI64 (wallNs z) ∧
     v.off = z.off ∧ Moved z.utc (specOf (kindOf op) (wallNs z) (ns dur) - wallNs z) v.utc ∧
     (specOf (kindOf op) (wallNs z) (ns dur) = wallNs z → v = z) := by
   obtain ⟨e1, e2, e3⟩ := zoned_eval op z dur hz hd
   by_cases hg : 0 < ns dur ∧ ns dur ≤ 9223372036854775807
-  · by_cases hs : stampOk (wallSecs z) z.utc.time.frac
+  · by_cases hs : InI64 (wallNs z)
     · obtain ⟨x, hx, hm, hzero⟩ := e3 hg hs
       rw [hx] at h
       have : (⟨x, z.off⟩ : Zoned) = v := RRes.ok.inj (Res.ok.inj h)
